@@ -200,6 +200,14 @@ package edf
 //@ func decodeString
 //@   props C11 C16
 //@   requires state != nil
+//@   at make assert [allocation_bounded_by_the_input] n <= len(packet) && c <= len(packet)
 //@   ensures [reads_what_the_encoder_writes] value == nil && state.decodeType && len(packet) >= 3 && packet[0] == edtString && len(packet) >= 3 + int(be16(packet[1], packet[2])) ==> result.2 == nil && result.0 != nil && bytes_eq(rvStr(*result.0), packet[3:3 + int(be16(packet[1], packet[2]))]) && result.1 == packet[3 + int(be16(packet[1], packet[2])):]
 //@   ensures [reads_what_the_encoder_writes_untagged] value == nil && !state.decodeType && len(packet) >= 2 && len(packet) >= 2 + int(be16(packet[0], packet[1])) ==> result.2 == nil && result.0 != nil && bytes_eq(rvStr(*result.0), packet[2:2 + int(be16(packet[0], packet[1]))]) && result.1 == packet[2 + int(be16(packet[0], packet[1])):]
 //@   ensures [truncated_input_is_an_error] !state.decodeType && (len(packet) < 2 || len(packet) < 2 + int(be16(packet[0], packet[1]))) ==> result.2 != nil
+
+// C16: no allocation out of proportion to the input: whatever a leaf decoder allocates itself is
+// bounded by the bytes it was given (the clause is checked at every make() of the function)
+//@ func decodeBinary
+//@   props C16 C11
+//@   requires state != nil
+//@   at make assert [allocation_bounded_by_the_input] n <= len(packet) && c <= len(packet)
